@@ -4,9 +4,10 @@
    sampled glycan). The theorem that connects them for all trees (text splice = condensation,
    "subst_sem"/"merge_correct" of DESIGN.md) is not proved yet; until then the check decides
    [Graft.denotes output tree] per input inside the extracted Coq code. *)
-From Coq Require Import List Bool Arith Lia.
+From Coq Require Import String List Bool Arith Lia.
 From GV Require Import Base.Util Spec.Smiles Spec.Chem Spec.Iso Spec.Graft Model.Merger Proofs.SmilesFacts.
 Import ListNotations.
+Open Scope list_scope.
 Open Scope list_scope.
 
 (* a condensation changes nothing but what the linkage says: all atoms of the parent, all atoms of the child
@@ -71,3 +72,58 @@ Theorem C01_fragment_embeds :
     run S (TAtom a0 :: rest) = Some (embed S c a0 sk).
 Proof. exact fragment_embeds. Qed.
 Print Assumptions C01_fragment_embeds.
+
+
+From GV Require Import Proofs.Suffix.
+
+(* The substitution theorem on molecules ("text splice = graph substitution"): for every host string
+   pre ++ [marker atom] ++ post whose marker ends its branch (or the string) and every complete child string whose
+   ring-closure labels are fresh at the marker, the string with the child written in the marker's place reads as
+   the host's molecule with the marker atom replaced by the child's molecule: the atoms of host and child in order,
+   every ordered neighbour list (hence every stereo-descriptor's meaning) kept and renumbered, the child's first atom
+   taking the marker's place at the host atom c and getting c as its first neighbour, the bonds of both kept.
+   Any host, any child, any depth or size. *)
+Theorem C01_splice_sem :
+  forall pre am post a0 rest S c Mh Mk,
+  run pst0 pre = Some S -> p_cur S = Some c -> p_pend S = None ->
+  sem (TAtom a0 :: rest) = Some Mk -> ~ In TDot rest -> fresh_labels S rest ->
+  match post with [] => True | t :: _ => t = TClose end ->
+  sem (pre ++ TAtom am :: post) = Some Mh ->
+  exists sk Me N1 N2 A2 B2,
+    run pst0 (TAtom a0 :: rest) = Some sk /\
+    sem (pre ++ (TAtom a0 :: rest) ++ post) = Some Me /\
+    m_atoms Mh = p_atoms S ++ am :: A2 /\
+    m_atoms Me = p_atoms S ++ m_atoms Mk ++ A2 /\
+    m_nbrs Mh = N1 ++ (Some c :: repeat None (a_h am)) :: N2 /\ length N1 = length (p_atoms S) /\
+    m_nbrs Me = map (map (option_map (ren S sk))) N1 ++ graft_nbrs S c (m_nbrs Mk) ++ map (map (option_map (ren S sk))) N2 /\
+    m_bonds Mh = p_bonds S ++ (c, length (p_atoms S), default_bond (nth c (p_atoms S) am) am) :: B2 /\
+    m_bonds Me = p_bonds S ++ (c, length (p_atoms S), link_bond S c a0) :: map (sh_bond S) (m_bonds Mk) ++ map (ren_bond S sk) B2.
+Proof. exact splice_sem. Qed.
+Print Assumptions C01_splice_sem.
+
+(* the hypotheses are satisfiable: a two-ring child spliced into a ring of the host *)
+Example C01_splice_sem_applies :
+  exists pre am post a0 rest S c Mh Mk,
+    lexS (s2l "OC1C([GaH2])C(O)OC1"%string) = Some (pre ++ TAtom am :: post) /\
+    lexS (s2l "O[C@@H]2OC(CO)C3CC3C2O"%string) = Some (TAtom a0 :: rest) /\
+    run pst0 pre = Some S /\ p_cur S = Some c /\ p_pend S = None /\
+    sem (TAtom a0 :: rest) = Some Mk /\ ~ In TDot rest /\ fresh_labels S rest /\
+    match post with [] => True | t :: _ => t = TClose end /\
+    sem (pre ++ TAtom am :: post) = Some Mh.
+Proof.
+  destruct (lexS (s2l "OC1C([GaH2])C(O)OC1"%string)) as [tm|] eqn:Em; [|vm_compute in Em; discriminate].
+  vm_compute in Em. inversion Em as [Etm]. clear Em.
+  destruct (lexS (s2l "O[C@@H]2OC(CO)C3CC3C2O"%string)) as [tc|] eqn:Ec; [|vm_compute in Ec; discriminate].
+  vm_compute in Ec. inversion Ec as [Etc]. clear Ec.
+  match type of Etm with ?a :: ?b :: ?c1 :: ?d :: ?e :: TAtom ?m :: ?post = _ =>
+    exists [a; b; c1; d; e], m, post end.
+  match type of Etc with TAtom ?a :: ?r = _ => exists a, r end.
+  eexists. eexists. eexists. eexists.
+  subst tm tc.
+  split; [reflexivity|]. split; [reflexivity|].
+  split; [vm_compute; reflexivity|]. split; [vm_compute; reflexivity|]. split; [reflexivity|].
+  split; [vm_compute; reflexivity|].
+  split; [intro H; cbn in H; repeat (destruct H as [H|H]; [discriminate|]); exact H|].
+  split; [intros l H; cbn in H; repeat (destruct H as [H|H]; [try discriminate; inversion H; subst; reflexivity|]); destruct H|].
+  split; [reflexivity|]. vm_compute. reflexivity.
+Qed.
